@@ -401,8 +401,20 @@ func ruleLeaderServesOwnEpoch(c *eng.Ctx) {
 			reqEpoch := eng.LoadNamed("LeaderEpoch", eng.Call(0, "server/protocol.UnmarshalReplicationRequest"))
 			zero := eng.CmpEdges(fn, reqEpoch, eng.IntConst(0), eng.EQ)
 			same := eng.CmpEdges(fn, reqEpoch, eng.LoadNamed("LeaderEpoch", eng.Or(eng.Param("p"), eng.LoadNamed("Partition", eng.Param("p")))), eng.EQ)
-			g, w := eng.GuardedBy(fn, rq[0].(ssa.Instruction), append(append([]eng.Edge{}, zero...), same...))
-			c.Check(g && len(same) > 0, "leader serves only requests of its own epoch", c.Pos(rq[0].(ssa.Instruction)), "req.LeaderEpoch == 0 ∨ req.LeaderEpoch == p.LeaderEpoch", "a replication request from another leader epoch is served (path "+w.String()+")")
+			pEpoch := eng.LoadNamed("LeaderEpoch", eng.Or(eng.Param("p"), eng.LoadNamed("Partition", eng.Param("p"))))
+			// either fact, whichever way a joined condition (`case e != 0 && e != p.LeaderEpoch:`) came to be false
+			either := eng.EdgesWhere(fn, func(a eng.AtomView) bool {
+				return a.RelHolds(reqEpoch, eng.IntConst(0), eng.EQ) || a.RelHolds(reqEpoch, pEpoch, eng.EQ)
+			})
+			g, w := eng.GuardedBy(fn, rq[0].(ssa.Instruction), append(append(append([]eng.Edge{}, zero...), same...), either...))
+			compared := len(same) > 0
+			eng.Instrs(fn, func(in ssa.Instruction) {
+				if bo, isB := in.(*ssa.BinOp); isB && (bo.Op == token.EQL || bo.Op == token.NEQ) &&
+					(reqEpoch(bo.X) && pEpoch(bo.Y) || reqEpoch(bo.Y) && pEpoch(bo.X)) {
+					compared = true
+				}
+			})
+			c.Check(g && compared, "leader serves only requests of its own epoch", c.Pos(rq[0].(ssa.Instruction)), "req.LeaderEpoch == 0 ∨ req.LeaderEpoch == p.LeaderEpoch", "a replication request from another leader epoch is served (path "+w.String()+")")
 			isRep := eng.BoolEdges(fn, func(v ssa.Value) bool {
 				e, ok := v.(*ssa.Extract)
 				if !ok || e.Index != 1 {
